@@ -785,6 +785,11 @@ def fusion(
         except (StopIteration, NotImplementedError):
             yield instr1, addr1
             break
+        except AssertionError:
+            # The look-ahead only exists to fuse a PRE byte; an invalid encoding
+            # *after* instr1 must not make instr1 itself undecodable.
+            yield instr1, addr1
+            raise
 
         if instr12 := instr1.fuse(instr2):
             instr1 = instr12
